@@ -209,9 +209,17 @@ func oblFile(workdir string, o *Obligation) string {
 	return filepath.Join(workdir, n+".smt2")
 }
 
+const maxScriptBytes = 48 << 20 // VC size cap: a larger script is an engine problem, never written to disk
+
 func stage1(u *Unit, o *Obligation, cfg SolverCfg) bool {
 	file := oblFile(cfg.WorkDir, o)
-	os.WriteFile(file, []byte(u.VC.script(o, false)), 0o644)
+	script := u.VC.script(o, false)
+	if len(script) > maxScriptBytes {
+		o.Status, o.Solver = "error", "size-cap"
+		o.Model = fmt.Sprintf("verification condition too large (%d MB): not sent to the solvers", len(script)>>20)
+		return true
+	}
+	os.WriteFile(file, []byte(script), 0o644)
 	o.File = file
 	cpuSem <- true
 	st, out, secs := runSolver(solvers[0], file, 2*time.Second)
@@ -361,7 +369,11 @@ func stage2(u *Unit, o *Obligation, cfg SolverCfg) {
 // stage0: incremental session with z3-new; only `unsat` answers are taken from it.
 func stage0(u *Unit, cfg SolverCfg, from, to int) {
 	file := filepath.Join(cfg.WorkDir, fmt.Sprintf("inc_%s_%d.smt2", shortFile(u.VC.name), from))
-	os.WriteFile(file, []byte(u.VC.incrementalScript(1500, from, to)), 0o644)
+	isc := u.VC.incrementalScript(1500, from, to)
+	if len(isc) > maxScriptBytes {
+		return
+	}
+	os.WriteFile(file, []byte(isc), 0o644)
 	defer func() {
 		if !cfg.KeepFiles {
 			os.Remove(file)
